@@ -398,10 +398,8 @@ impl Harness for WaitSetHarness {
         let pid = unsafe { libc::getpid() };
         let _ = leftovers("ws", pid);
         remove_leftovers("ws", pid);
-        let g = match errs.lock() {
-            Ok(g) => g,
-            Err(p) => p.into_inner(),
-        };
+        #[allow(unused_mut)]
+        let mut g = take_after_run(&errs);
         let mut violation = g.errs.first().map(|(c, m)| Violation { class: c.clone(), msg: m.clone() });
         let mut inconclusive = false;
         if violation.is_none() {
